@@ -1,24 +1,26 @@
 #!/usr/bin/env python3
 """Apply a patch to /repo, run one or more checks (quick tier) under a time limit, always revert.
-usage: try_patch.py <patch.diff> <Cxx> [<Cyy> ...]"""
+usage: [VERIF_REPO=/tmp/bN/repo] try_patch.py <patch.diff> <Cxx> [<Cyy> ...]"""
 import subprocess
 import sys
 
 import os
 patch = os.path.abspath(sys.argv[1])
+REPO = os.environ.get("VERIF_REPO", REPO)
+VROOT = os.path.dirname(os.path.dirname(os.path.abspath(__file__)))
 pids = sys.argv[2:]
-st = subprocess.run(["git", "-C", "/repo", "status", "--porcelain"], capture_output=True, text=True).stdout.strip()
+st = subprocess.run(["git", "-C", REPO, "status", "--porcelain"], capture_output=True, text=True).stdout.strip()
 if st:
     print("refusing: /repo has local changes:\n" + st)
     sys.exit(2)
-r = subprocess.run(["git", "-C", "/repo", "apply", patch])
+r = subprocess.run(["git", "-C", REPO, "apply", patch])
 if r.returncode != 0:
     print("patch does not apply")
     sys.exit(2)
 try:
     for pid in pids:
         try:
-            p = subprocess.run(["/verif/check", pid, "--tier", "quick"], cwd="/verif", capture_output=True, text=True, timeout=1500)
+            p = subprocess.run([os.path.join(VROOT, "check"), pid, "--tier", "quick"], cwd=VROOT, capture_output=True, text=True, timeout=1500)
             lines = [l for l in p.stdout.splitlines() if any(k in l for k in ("VIOLATION", "signature", "KNOWN-FINDING", "TOOL-ERROR", "DIVERGENCE"))]
             print("== %s rc=%d" % (pid, p.returncode))
             for l in lines[:8]:
@@ -26,5 +28,5 @@ try:
         except subprocess.TimeoutExpired:
             print("== %s TIMEOUT" % pid)
 finally:
-    subprocess.run(["git", "-C", "/repo", "checkout", "--", "."])
-    subprocess.run(["git", "-C", "/repo", "clean", "-fdq", "--", "ractor", "ractor_cluster"], check=False)
+    subprocess.run(["git", "-C", REPO, "checkout", "--", "."])
+    subprocess.run(["git", "-C", REPO, "clean", "-fdq", "--", "ractor", "ractor_cluster"], check=False)
